@@ -15,7 +15,7 @@ from pathlib import Path
 from ..common import REPO, Unsupported
 from . import models as M
 from .models import Ctx
-from .sym import GList, SBool, SList, SSet, band, bite, bnot, bor, guard_of, is_sym, lift, merge, wrap
+from .sym import GDict, GList, SBool, SList, SSet, SymCount, band, bite, bnot, bor, guard_of, is_sym, lift, merge, wrap
 
 SRC = REPO / "src" / "y0"
 MODULES = {
@@ -24,6 +24,7 @@ MODULES = {
     "struct": "struct.py",
     "comb": "util/combinatorics.py",
     "sigma": "algorithm/separation/sigma_separation.py",
+    "simplify": "algorithm/simplify_latent.py",
 }
 
 
@@ -80,7 +81,72 @@ def soft_merge(c, a, b):
         return Poison(str(e))
 
 
+class LazyGen:
+    """A generator function of y0 run lazily (only when Interp.lazy_generators is set): the body runs in its own
+    thread with a strict hand-off, so that what it reads from a graph the consumer mutates between two items is
+    the mutated graph, as in Python.  Not modelled: a generator with side effects of its own that the consumer
+    abandons with `break` (the body is still run to its end)."""
+
+    def __init__(self, interp, f, fr):
+        import threading
+
+        self.interp, self.f, self.fr = interp, f, fr
+        fr.lazy = self
+        self.to_prod, self.to_cons = threading.Semaphore(0), threading.Semaphore(0)
+        self.started = self.done = False
+        self.item = self.exc = None
+        self.pc = Ctx.pc
+
+    def _run(self):
+        self.to_prod.acquire()
+        try:
+            Ctx.pc = self.pc
+            self.interp.block(self.f.node.body, self.fr)
+        except BaseException as e:  # noqa: BLE001 - handed to the consumer
+            self.exc = e
+        self.done = True
+        self.to_cons.release()
+
+    def emit(self, g, x):
+        self.item, self.pc = (g, x), Ctx.pc
+        self.to_cons.release()
+        self.to_prod.acquire()
+        Ctx.pc = self.pc
+
+    def pull(self):
+        import threading
+
+        if self.done:
+            return None
+        saved = Ctx.pc
+        if not self.started:
+            self.started = True
+            threading.Thread(target=self._run, daemon=True).start()
+        self.item = None
+        self.to_prod.release()
+        self.to_cons.acquire()
+        Ctx.pc = saved
+        if self.exc is not None:
+            e, self.exc = self.exc, None
+            raise e
+        return None if self.done else self.item
+
+    def drain(self):
+        items = []
+        while True:
+            it = self.pull()
+            if it is None:
+                return SList(items)
+            items.append(it)
+
+
+def undrain(v):
+    return v.drain() if isinstance(v, LazyGen) else v
+
+
 class Frame:
+    lazy = None
+
     def __init__(self, env):
         self.env = env
         self.returns = []  # (guard, value)
@@ -95,8 +161,10 @@ class LoopState:
 
 
 class Interp:
-    def __init__(self, universe):
+    def __init__(self, universe, lazy_generators=False):
         self.U = list(universe)
+        self.lazy_generators = lazy_generators
+        self.unwind = len(self.U) + 1
         self.funcs = {}  # (mod, name) -> PyFunc
         self.classes = {}  # class name -> {method name: PyFunc}
         self.globals = {}
@@ -142,6 +210,13 @@ class Interp:
         g["tqdm"] = lambda it, **k: it
         g["cast"] = lambda t, v: v
         self.passthrough = {g["tqdm"], g["cast"]}
+        try:
+            from y0.algorithm.simplify_latent import SimplifyResults
+
+            g["SimplifyResults"] = SimplifyResults
+            self.passthrough.add(SimplifyResults)
+        except Exception:  # noqa: BLE001 - only the Evans harness needs it
+            pass
         g["triplewise"] = more_itertools.triplewise
         for name, val in (("set", set), ("frozenset", frozenset), ("list", list), ("tuple", tuple), ("len", len), ("any", any), ("all", all), ("sorted", sorted), ("min", min), ("isinstance", isinstance), ("str", str), ("iter", iter), ("range", range), ("enumerate", enumerate), ("zip", zip), ("sum", sum), ("bool", bool), ("int", int), ("dict", dict), ("reversed", reversed), ("next", next), ("max", max), ("print", lambda *a, **k: None)):
             g[name] = val
@@ -261,6 +336,8 @@ class Interp:
         env["__mod__"] = f.mod
         env["__cls__"] = f.cls
         fr = Frame(env)
+        if f.is_gen and self.lazy_generators:
+            return LazyGen(self, f, fr)
         saved_pc = Ctx.pc
         self.depth += 1
         try:
@@ -291,11 +368,26 @@ class Interp:
             if isinstance(s.value, ast.Constant):
                 return
             if isinstance(s.value, ast.Yield):
-                fr.yields.append((Ctx.pc, self.eval(s.value.value, fr)))
+                val = self.eval(s.value.value, fr)
+                if fr.lazy is not None:
+                    fr.lazy.emit(Ctx.pc, val)
+                else:
+                    fr.yields.append((Ctx.pc, val))
                 return
             if isinstance(s.value, ast.YieldFrom):
-                for g, x in SList.of(self.eval(s.value.value, fr)).items:
-                    fr.yields.append((band(Ctx.pc, g), x))
+                src = self.eval(s.value.value, fr)
+                if fr.lazy is not None and isinstance(src, LazyGen):
+                    while True:
+                        it = src.pull()
+                        if it is None:
+                            break
+                        fr.lazy.emit(band(Ctx.pc, it[0]), it[1])
+                    return
+                for g, x in SList.of(undrain(src)).items:
+                    if fr.lazy is not None:
+                        fr.lazy.emit(band(Ctx.pc, g), x)
+                    else:
+                        fr.yields.append((band(Ctx.pc, g), x))
                 return
             self.eval(s.value, fr)
         elif isinstance(s, (ast.Assign, ast.AnnAssign)):
@@ -329,6 +421,8 @@ class Interp:
             self.if_stmt(s, fr, loop)
         elif isinstance(s, ast.For):
             self.for_stmt(s, fr)
+        elif isinstance(s, ast.While):
+            self.while_stmt(s, fr)
         elif isinstance(s, ast.Pass):
             return
         elif isinstance(s, ast.Break):
@@ -365,7 +459,9 @@ class Interp:
         elif isinstance(target, ast.Subscript):
             obj = self.eval(target.value, fr)
             key = self.eval(target.slice, fr)
-            if isinstance(obj, dict) and not is_sym(Ctx.pc):
+            if isinstance(obj, AttrView):
+                obj.set(key, val)
+            elif isinstance(obj, dict) and not is_sym(Ctx.pc):
                 obj[key] = val
             else:
                 raise Unsupported("subscript assignment under a symbolic guard")
@@ -401,7 +497,12 @@ class Interp:
 
     def for_stmt(self, s, fr):
         it = self.eval(s.iter, fr)
-        items = SList.of(it).items if isinstance(it, (SSet, SList, GList)) else [(True, x) for x in self.iterate(it)]
+        if isinstance(it, NodesView):
+            it = it.as_set()
+        if isinstance(it, LazyGen):
+            items = iter(it.pull, None)
+        else:
+            items = SList.of(it).items if isinstance(it, (SSet, SList, GList)) else [(True, x) for x in self.iterate(it)]
         loop = LoopState()
         pc0 = Ctx.pc
         for g, x in items:
@@ -425,6 +526,44 @@ class Interp:
         Ctx.pc = band(pc0, bnot(getattr(fr, "dead", False)))
         if s.orelse:
             raise Unsupported("for-else")
+
+    def while_stmt(self, s, fr):
+        """Bounded unrolling with an unwinding assertion: if the loop can still be entered after `unwind`
+        iterations, an UnwindLimit 'exception' is recorded under that guard, which makes the query
+        inconclusive instead of silently truncating the loop."""
+        if s.orelse:
+            raise Unsupported("while-else")
+        loop = LoopState()
+        pc0 = Ctx.pc
+        active = pc0
+        for _ in range(self.unwind + 1):
+            Ctx.pc = active
+            c = guard_of(self.eval(s.test, fr))
+            active = band(active, c, bnot(loop.broken), bnot(getattr(fr, "dead", False)))
+            if not (is_sym(active) or active):
+                break
+            if _ == self.unwind:
+                Ctx.raises.append((active, "UnwindLimit", f"while loop at line {s.lineno} not exhausted after {self.unwind} iterations"))
+                break
+            loop.cont = False
+            Ctx.pc = active
+            if is_sym(active):
+                env0 = dict(fr.env)
+                self.block(s.body, fr, loop)
+                for k in list(fr.env):
+                    if k in env0 and fr.env[k] is not env0[k]:
+                        fr.env[k] = soft_merge(active, fr.env[k], env0[k])
+            else:
+                self.block(s.body, fr, loop)
+        Ctx.pc = band(pc0, bnot(getattr(fr, "dead", False)))
+
+    def e_NamedExpr(self, e, fr):
+        val = self.eval(e.value, fr)
+        if not isinstance(e.target, ast.Name):
+            raise Unsupported("walrus target")
+        old = fr.env.get(e.target.id)
+        fr.env[e.target.id] = val if (old is None or not is_sym(Ctx.pc)) else soft_merge(Ctx.pc, val, old)
+        return val
 
     def iterate(self, it):
         if isinstance(it, (list, tuple, set, frozenset, dict, range)) or hasattr(it, "__iter__"):
@@ -606,6 +745,25 @@ class Interp:
         if isinstance(op, (ast.Is, ast.IsNot)):
             g = a is b
             return g if isinstance(op, ast.Is) else not g
+        if isinstance(a, SymCount) or isinstance(b, SymCount):
+            if isinstance(b, SymCount):
+                a, b = b, a
+                op = {ast.Lt: ast.Gt, ast.Gt: ast.Lt, ast.LtE: ast.GtE, ast.GtE: ast.LtE}.get(type(op), type(op))()
+            if not isinstance(b, int):
+                raise Unsupported("comparison of two symbolic counts")
+            if isinstance(op, ast.Eq):
+                return a.eq(b)
+            if isinstance(op, ast.NotEq):
+                return bnot(a.eq(b))
+            if isinstance(op, ast.GtE):
+                return a.ge(b)
+            if isinstance(op, ast.Gt):
+                return a.ge(b + 1)
+            if isinstance(op, ast.Lt):
+                return bnot(a.ge(b))
+            if isinstance(op, ast.LtE):
+                return bnot(a.ge(b + 1))
+            raise Unsupported("count comparison")
         if isinstance(a, (SSet, SList)) or isinstance(b, (SSet, SList)):
             if isinstance(a, SList) or isinstance(b, SList):
                 raise Unsupported("comparison of symbolic lists")
@@ -761,9 +919,11 @@ class Interp:
             saved = Ctx.pc
             Ctx.pc = band(pc0, g)
             try:
-                it = self.eval(gen.iter, f2)
+                it = undrain(self.eval(gen.iter, f2))
             finally:
                 Ctx.pc = saved
+            if isinstance(it, NodesView):
+                it = it.as_set()
             items = SList.of(it).items if isinstance(it, (SSet, SList, GList)) else [(True, x) for x in self.iterate(it)]
             for h, x in items:
                 env2 = dict(env)
@@ -821,7 +981,7 @@ class Interp:
     def e_DictComp(self, e, fr):
         items = self.comp(e, fr, lambda f: (self.eval(e.key, f), self.eval(e.value, f)))
         if not SList(items).is_concrete():
-            raise Unsupported("symbolic dict comprehension")
+            return GDict([(g, k, v) for g, (k, v) in items])
         return dict(x for g, x in items if g)
 
     # -- calls ------------------------------------------------------------------------
@@ -846,8 +1006,8 @@ class Interp:
 
         if isinstance(fn, (SetMethod, ListMethod)):
             return fn(*args, **kwargs)
-        args = [SList.of(a) if isinstance(a, GList) and a.symbolic() else a for a in args]
-        kwargs = {k: (SList.of(a) if isinstance(a, GList) and a.symbolic() else a) for k, a in kwargs.items()}
+        args = [SList.of(a) if isinstance(a, GList) and a.symbolic() else undrain(a) for a in args]
+        kwargs = {k: (SList.of(a) if isinstance(a, GList) and a.symbolic() else undrain(a)) for k, a in kwargs.items()}
         if fn is functools.partial:
             return Partial(args[0], args[1:], kwargs)
         sym = any(isinstance(a, (SSet, SList, SBool, SymMixed, M.SymGraphBase, Judgement)) for a in list(args) + list(kwargs.values()))
@@ -903,6 +1063,11 @@ class AttrView:
     def get(self, key):
         return wrap(self.g.attr.get((self.v, key), False))
 
+    def set(self, key, val):
+        k = (self.v, key)
+        self.g.attr[k] = bite(Ctx.pc, guard_of(val), self.g.attr.get(k, False))
+        self.g.attr_has[k] = bor(self.g.attr_has.get(k, False), Ctx.pc)
+
 
 class NodesView:
     def __init__(self, g):
@@ -915,6 +1080,8 @@ class NodesView:
         return SList([(self.g.node[v], AttrView(self.g, v)) for v in self.g.U])
 
     def __call__(self, data=False):
+        if data is True:
+            return self.items()
         return self.g.nodes(data=data)
 
     def as_set(self):
@@ -1035,7 +1202,7 @@ def m_len(interp, x):
     if isinstance(x, (SSet, SList)):
         if SList.of(x).is_concrete():
             return len(SSet.of(x).concrete()) if isinstance(x, SSet) else len(x.concrete())
-        raise Unsupported("len of a symbolic collection")
+        return SymCount([g for g, _ in SList.of(x).items])
     if isinstance(x, SymMixed):
         raise Unsupported("len(graph)")
     return len(x)
